@@ -191,7 +191,10 @@ class ActionConfigFile(Action):
     def apply_config(parser, cfg, dest, value) -> None:
         from ._link_arguments import skip_apply_links
 
-        with _ActionSubCommands.not_single_subcommand(), previous_config_context(cfg), skip_apply_links():
+        # a pending --print_config request is served by the outer parse, after all arguments were applied
+        with _ActionSubCommands.not_single_subcommand(), previous_config_context(
+            cfg
+        ), skip_apply_links(), _ActionPrintConfig.skip_print_config():
             kwargs = {"env": False, "defaults": False, "_skip_validation": True, "_fail_no_subcommand": False}
             try:
                 cfg_path: Optional[Path] = Path(value, mode=get_config_read_mode())
